@@ -105,6 +105,24 @@ def obligations(tier):
                   "leading dots stuffed, TOP limited to header + blank line + k body lines, then the documented extra blank line "
                   "and the lone-dot terminator, flushed; table unchanged; unreadable file => -ERR",
             expect_witnesses=["retr", "top", "file_vanished", "retr_dot_line_and_partial_last_line", "top_cut_short", "top_0_header_only"]),
+        Obl("retr_twice", "retr.c",
+            progs=[POP3D],
+            repo=["scan_ulong.c", "substdio.c", "stralloc_pend.c"],
+            lib=["ideal_substdio.c", "ideal_getln.c", "arena_stralloc.c"],
+            defines={"ARENA_CAP": 16, "ARENA_SLOTS": 2, "TWICE": 1, "F2": 2},
+            sysrename=["_exit", "close"],
+            grid=[{"F": f} for f in ([4] if quick else [5, 6])],
+            unwind=lambda p: {"blast": p["F"] + 2, "getln": p["F"] + 2, "substdio_put": 40, "scan_ulong": 4},
+            unwind_default=lambda p: 3 * p["F"] + 22,
+            timeout=900 if quick else 3000,
+            functions=["qmail-pop3d.c:pop3_top", "qmail-pop3d.c:blast", "substdio.c:substdio_fdbuf"],
+            stubs=[IDEAL + "; the ideal stream keeps a ghost flag 'may hold unread read-ahead bytes' that only end of file or substdio_fdbuf() clears",
+                   ARENA, EXIT, "open_read cut: descriptor 5", "close: records"],
+            assumes=["two messages; first retrieval RETR 1 or TOP 1 k on any file of up to F bytes, then RETR 2 on any file of 2 bytes"],
+            outside=["more than two retrievals", "files longer than F bytes"],
+            claim="a retrieval that follows another one (in particular a TOP that stopped early) sends exactly its own message: the message stream "
+                  "is reset for every retrieval",
+            expect_witnesses=["retr", "top", "top_cut_short", "second_retrieval", "second_retrieval_after_a_top_cut_short"]),
         Obl("getlist", "getlist.c",
             progs=[POP3D],
             repo=["maildir.c", "prioq.c"] + STRA,
